@@ -20,7 +20,13 @@ func Harness_C11_queue() {
 	// initial: how many commits the queue is created from (the ref tips of a walk); the
 	// others are inserted one by one
 	k0 := zzverif.Param("initial", 1)
-	q, err := NewCommitsQueue(gg.db, gg.sums[:k0])
+	initial := append([][]byte{}, gg.sums[:k0]...)
+	// two refs may point at the same commit: the tips a walk starts from can repeat
+	if zzverif.Param("dupInitial", 0) == 1 {
+		initial = append(initial, gg.sums[0])
+		initial = append([][]byte{gg.sums[k0-1]}, initial...)
+	}
+	q, err := NewCommitsQueue(gg.db, initial)
 	zzverif.Assert("queue-created", err == nil)
 	if err != nil {
 		return
